@@ -774,6 +774,7 @@ func cmdCheck(args []string) {
 			fmt.Printf("VIOLATION property=%s replay=%s no-failing-input-found\n", id, rp)
 		}
 	}
+	standinTier = *tier
 	// bounded stand-ins registered for this property (real functions, stated bound, never counted as proved)
 	var standinResults []map[string]interface{}
 	for _, sd := range loadStandins() {
